@@ -78,6 +78,9 @@ func ruleEffectShared(c *Ctx) {
 		}
 	}
 	nWrites := 0
+	// unexported functions whose result aliases package-level storage: their call results are
+	// tainted in the callers instead of being reported at the helper (fixpoint over the call graph)
+	retTainted := map[string]bool{}
 	for _, name := range p.sortedFuncNames() {
 		fd := p.Funcs[name]
 		if fd.Body == nil {
@@ -115,14 +118,34 @@ func ruleEffectShared(c *Ctx) {
 			}
 			return true
 		})
-		// 2. package-level slices/arrays (and locals holding them) do not escape
+	}
+	// 2. package-level slices/arrays (and locals holding them) do not escape
+	isRefType := func(t types.Type) bool {
+		switch t.Underlying().(type) {
+		case *types.Slice, *types.Pointer, *types.Map:
+			return true
+		}
+		return false
+	}
+	analyse := func(name string, fd *ast.FuncDecl, report bool) bool {
 		tainted := map[types.Object]bool{}
-		isRefType := func(t types.Type) bool {
-			switch t.Underlying().(type) {
-			case *types.Slice, *types.Pointer, *types.Map:
-				return true
+		shared := func(e ast.Expr) (string, bool) {
+			e = ast.Unparen(e)
+			tv, ok := p.Info.Types[e]
+			if !ok || !isRefType(tv.Type) {
+				return "", false
 			}
-			return false
+			if call, ok := e.(*ast.CallExpr); ok {
+				if cn := p.calleeName(call); retTainted[cn] {
+					return "the result of " + cn, true
+				}
+				return "", false
+			}
+			o := rootObj(e)
+			if o == nil {
+				return "", false
+			}
+			return o.Name(), isPkgVar(o) || tainted[o]
 		}
 		for pass := 0; pass < 3; pass++ {
 			ast.Inspect(fd.Body, func(n ast.Node) bool {
@@ -131,14 +154,7 @@ func ruleEffectShared(c *Ctx) {
 					return true
 				}
 				for i, r := range as.Rhs {
-					ro := rootObj(r)
-					if ro == nil {
-						continue
-					}
-					if tv, ok := p.Info.Types[r]; !ok || !isRefType(tv.Type) {
-						continue
-					}
-					if isPkgVar(ro) || tainted[ro] {
+					if _, sh := shared(r); sh {
 						if lo := p.objOf(as.Lhs[i]); lo != nil && !isPkgVar(lo) {
 							tainted[lo] = true
 						}
@@ -147,29 +163,26 @@ func ruleEffectShared(c *Ctx) {
 				return true
 			})
 		}
-		usesShared := func(e ast.Expr) (types.Object, bool) {
-			o := rootObj(e)
-			if o == nil {
-				return nil, false
-			}
-			tv, ok := p.Info.Types[e]
-			if !ok || !isRefType(tv.Type) {
-				return nil, false
-			}
-			return o, isPkgVar(o) || tainted[o]
-		}
+		returns := false
+		exported := fd.Name.IsExported()
 		walkStack(fd.Body, func(n ast.Node, stack []ast.Node) {
 			switch x := n.(type) {
 			case *ast.ReturnStmt:
 				for _, r := range x.Results {
-					if o, sh := usesShared(r); sh {
-						c.bad(fmt.Sprintf("shared.escape:%s:%s", name, o.Name()), x, fmt.Sprintf("%s returns %s, which aliases package-level storage: a caller writing into the result would change what every later call (in any goroutine) returns", name, o.Name()), "C20", "C06")
+					if what, sh := shared(r); sh {
+						returns = true
+						if report && exported {
+							c.bad(fmt.Sprintf("shared.escape:%s:%s", name, what), x, fmt.Sprintf("%s returns %s, which aliases package-level storage: a caller writing into the result would change what every later call (in any goroutine) returns", name, what), "C20", "C06")
+						}
 					}
 				}
 			case *ast.CallExpr:
+				if !report {
+					return
+				}
 				cn := p.calleeName(x)
 				for i, a := range x.Args {
-					o, sh := usesShared(a)
+					what, sh := shared(a)
 					if !sh {
 						continue
 					}
@@ -183,11 +196,28 @@ func ruleEffectShared(c *Ctx) {
 						okUse = true // io.Writer must not modify or retain the slice
 					}
 					if !okUse {
-						c.bad(fmt.Sprintf("shared.pass:%s:%s", name, o.Name()), x, fmt.Sprintf("%s passes %s (package-level storage) to %s, which may retain or modify it", name, o.Name(), cn), "C20")
+						c.bad(fmt.Sprintf("shared.pass:%s:%s", name, what), x, fmt.Sprintf("%s passes %s (package-level storage) to %s, which may retain or modify it", name, what, cn), "C20")
 					}
 				}
 			}
 		})
+		return returns
+	}
+	for iter := 0; iter < 4; iter++ {
+		for _, name := range p.sortedFuncNames() {
+			fd := p.Funcs[name]
+			if fd.Body == nil || fd.Name.IsExported() {
+				continue
+			}
+			if analyse(name, fd, false) {
+				retTainted[name] = true
+			}
+		}
+	}
+	for _, name := range p.sortedFuncNames() {
+		if fd := p.Funcs[name]; fd.Body != nil {
+			analyse(name, fd, true)
+		}
 	}
 	c.check(nWrites == 0, "shared.nowrites", nil, fmt.Sprintf("no function writes package-level state (%d functions inspected); no goroutines, channels or init", p.NFuncs), "package-level state is written", "C20")
 	// imports
